@@ -1,8 +1,24 @@
 (* C09 — Results do not depend on materialization history or planner configuration.
-   The configuration-dependent planners are proved value-neutral for every oracle /
-   configuration value: every rechunk plan is a list of layouts of the same shape (C15)
-   and every unified layout is a layout of the same axis (C17). *)
-From DA Require Import PyBase Rechunk RechunkFacts Unify UnifyFacts.
+
+   Two layers.
+   (1) The configuration-dependent planners are value-neutral for every oracle / configuration
+       value: every rechunk plan is a list of layouts of the same shape ending in the requested
+       layout (C15) and every unified layout is a layout of the same axis (C17).
+   (2) The history model (theories/History.v: the process-wide name-keyed weak `_LOWER_CACHE`,
+       Expr.lower_once, the `_lower` loop, the per-collection `_lowered_expr` cache; the one-pass
+       planner `lower1` takes the configuration explicitly): for EVERY planner that preserves the
+       denotation (hypothesis `lower_sound`; `simp_sound` for simplify()), every history of
+       Build / Materialize-under-a-configuration / Drop / garbage-collection steps keeps the
+       invariant "each cache entry name -> form computes what the name's expression computes",
+       hence values are history- and configuration-free.  The stronger claim "the lowered FORM is
+       a function of the name" (the comment above _LOWER_CACHE) is refuted for planners that read
+       the configuration (finding F5).
+   The harness (harness/c09.py, model_family) replays the real event stream of generated
+   histories (every lower_once call on the real cache, its result, evictions, cache contents
+   after every step) through `history_ok`, and evaluates real cache entries numerically. *)
+From Coq Require Import List Bool PArith.
+From DA Require Import PyBase Rechunk RechunkFacts Unify UnifyFacts History HistoryFacts.
+Import ListNotations.
 Open Scope Z_scope.
 
 Theorem C09_plan_is_layout_sequence_for_every_config :
@@ -19,5 +35,96 @@ Theorem C09_unified_layout_same_axis_for_every_policy :
   (forall z, In z (inner_bounds r) <-> exists d, In d ds /\ In z (inner_bounds d)).
 Proof. exact common_blockdim_finest. Qed.
 
+(* `lower_sound` for the rechunk planner: under any two configurations the plans end in the same
+   layout `new` and consist of layouts of the same shape: what is computed does not depend on the
+   configuration, only how *)
+Theorem C09_rechunk_planner_config_free :
+  forall orders1 oracle1 threshold1 bsl1 dl1 orders2 oracle2 threshold2 bsl2 dl2 old new itemsize plan1 plan2 shape,
+  layout_ok shape old = true -> layout_ok shape new = true ->
+  plan_rechunk orders1 oracle1 old new itemsize threshold1 bsl1 dl1 = Some plan1 ->
+  plan_rechunk orders2 oracle2 old new itemsize threshold2 bsl2 dl2 = Some plan2 ->
+  last_opt plan1 = Some new /\ last_opt plan2 = Some new /\
+  forallb (layout_ok shape) plan1 = true /\ forallb (layout_ok shape) plan2 = true.
+Proof. exact rechunk_planner_config_free. Qed.
+
+(* ---- the history model ---- *)
+
+(* for every history: every entry of the shared cache, and every per-collection cache, holds a
+   form that computes what the expression it is filed under computes *)
+Theorem C09_cache_invariant :
+  forall (lower1 : cfg -> name -> name) (simp : name -> name) (D : Type) (den : name -> D),
+  (forall k n, den (lower1 k n) = den n) -> (forall n, den (simp n) = den n) ->
+  forall ops : list op,
+  let st := run lower1 simp ops init in
+  (forall n l, In (n, l) (st_cache st) -> den l = den n) /\
+  (forall x l, In x (st_colls st) -> c_low x = Some l -> den l = den (c_root x)).
+Proof. intros lower1 simp D den Hl Hs ops. exact (cache_invariant lower1 simp D den Hl Hs ops). Qed.
+
+(* two arbitrary histories (different orders of builds, computes, drops, collections, different
+   cache contents, evictions), the same expression: the materialized forms compute the same *)
+Theorem C09_values_history_free :
+  forall (lower1 : cfg -> name -> name) (simp : name -> name) (D : Type) (den : name -> D),
+  (forall k n, den (lower1 k n) = den n) -> (forall n, den (simp n) = den n) ->
+  forall ops1 ops2 x1 x2 l1 l2,
+  In x1 (st_colls (run lower1 simp ops1 init)) -> In x2 (st_colls (run lower1 simp ops2 init)) ->
+  c_root x1 = c_root x2 -> c_low x1 = Some l1 -> c_low x2 = Some l2 -> den l1 = den l2.
+Proof. exact values_history_free. Qed.
+
+(* in particular after any common prefix, materializing expression p under configuration k1 or
+   under k2 (optimizing or not, whatever requests the lowering rules issue) computes the same *)
+Theorem C09_values_config_free :
+  forall (lower1 : cfg -> name -> name) (simp : name -> name) (D : Type) (den : name -> D),
+  (forall k n, den (lower1 k n) = den n) -> (forall n, den (simp n) = den n) ->
+  forall pre p c k1 k2 o1 o2 items1 items2 x1 x2 l1 l2,
+  In x1 (st_colls (run lower1 simp (pre ++ [Build p; Materialize c k1 o1 items1]) init)) ->
+  In x2 (st_colls (run lower1 simp (pre ++ [Build p; Materialize c k2 o2 items2]) init)) ->
+  c_root x1 = p -> c_root x2 = p -> c_low x1 = Some l1 -> c_low x2 = Some l2 -> den l1 = den l2.
+Proof.
+  intros lower1 simp D den Hl Hs pre p c k1 k2 o1 o2 items1 items2 x1 x2 l1 l2 H1 H2 R1 R2 E1 E2.
+  apply (values_history_free lower1 simp D den Hl Hs _ _ x1 x2 l1 l2 H1 H2); congruence.
+Qed.
+
+(* REFUTED: "lowering is a context-free function of the name, so memoizing by name is safe":
+   for a (denotation-preserving) planner that reads the configuration, the form a collection gets
+   under configuration 2 depends on whether somebody materialized the same name under
+   configuration 1 before — the cache serves the stale form (finding F5; values are unaffected,
+   C09_values_history_free) *)
+Theorem C09_lower_context_free_refuted :
+  exists (lower1 : cfg -> name -> name) (den : name -> positive),
+  (forall k n, den (lower1 k n) = den n) /\
+  exists (n : name) (k1 k2 : cfg),
+  let fresh := run lower1 (fun x => x) [Build n; Materialize 0 k2 false [Top; Top]] init in
+  let after := run lower1 (fun x => x)
+                 [Build n; Materialize 0 k1 false [Top; Top]; Build n; Materialize 1 k2 false [Top; Top]] init in
+  option_map c_low (nth_error (st_colls fresh) 0) = Some (Some 20%positive) /\
+  option_map c_low (nth_error (st_colls after) 1) = Some (Some 10%positive).
+Proof.
+  exists w_lower1, w_den. split; [exact w_lower_sound|].
+  exists 5%positive, 1%positive, 2%positive. vm_compute. split; reflexivity.
+Qed.
+
+(* ---- Examples ---- *)
+(* a planner table as the harness supplies it; names 1..4; 1 lowers to 2 under cfg 1, to 3 under cfg 2 *)
+Definition ex_lt : table := [ (1, 1, 2); (1, 2, 2); (2, 1, 3); (2, 3, 3); (1, 4, 4) ]%positive.
+
+Example C09_ex_history :
+  let st := run (lower1_of ex_lt) (simp_of [])
+              [ Build 1; Materialize 0 1 true [Req 4; Top; Top]; Build 1; Evict [4];
+                Materialize 1 2 true [Top; Top]; Drop 0; Evict [1] ]%positive init in
+  st_cache st = [(2, 2)]%positive /\
+  map c_low (st_colls st) = [None; Some 2%positive].
+Proof. vm_compute. split; reflexivity. Qed.
+
+Example C09_ex_replay :
+  history_ok ex_lt []
+    [ (Build 1, [], None, []);
+      (Materialize 0 1 true [Req 4; Top; Top; Gc [4]], [4; 2; 2], Some 2, [(1, 2); (2, 2)]) ]%positive = true.
+Proof. vm_compute. reflexivity. Qed.
+
 Print Assumptions C09_plan_is_layout_sequence_for_every_config.
 Print Assumptions C09_unified_layout_same_axis_for_every_policy.
+Print Assumptions C09_rechunk_planner_config_free.
+Print Assumptions C09_cache_invariant.
+Print Assumptions C09_values_history_free.
+Print Assumptions C09_values_config_free.
+Print Assumptions C09_lower_context_free_refuted.
